@@ -88,7 +88,8 @@ Definition records_ok (thr : N) (rq : req) (sc : script) (wire_obs : N) (recs : 
   end.
 
 Record verdict := {
-  in_scope : bool;        (* the script is inside the property's quantifier (no ErrAbortHandler, codes 200..999) *)
+  in_scope : bool;        (* the script is inside the property's quantifier (no ErrAbortHandler, [codes_ok]: first code 200..999
+                             or one net/http rejects) *)
   spec_noescape : bool;   (* no panic left ServeHTTP *)
   spec_500 : bool;        (* status 500 sent by Relay iff the handler panicked before any header; the property does
                              not constrain the body of that answer *)
